@@ -490,6 +490,11 @@ def call_builtin_method(I, recv, name, args, kwargs, fr):
                 return c0.items[0].join_parts(I, c0.items)
             if isinstance(c0, PList) and all(isinstance(x, type(recv)) for x in c0.items):
                 return recv.join(c0.items)
+        if name == 'join' and len(args) == 1:
+            a0 = args[0]
+            c0 = I.ctx.cell(a0) if isinstance(a0, Ref) else a0
+            if isinstance(c0, PList) and all(type(x) is type(recv) for x in c0.items):
+                return recv.join(c0.items)       # concrete separator, concrete parts
         if name == 'encode' and isinstance(recv, str):
             return recv.encode(*args)
         if name == 'upper':
